@@ -331,3 +331,27 @@ def coq_N(x):
 def run_child(ck, script, args=(), timeout=1200, inp=None):
     """run a harness script in a fresh interpreter against /repo's current sources; returns (rc, out)"""
     return sh(["/venv/bin/python", os.path.join(VERIF, "checks", script)] + list(args), timeout=timeout, env=ck.pyenv(), cwd=ck.scratch, inp=inp)
+
+
+def guarded(pid, main, argv):
+    """top-level safety net: a harness that cannot complete against the current source (an exception escaping the check) is a
+    property no longer shown to hold, never a bare traceback: print the traceback, write a replay naming the crash, exit 1"""
+    try:
+        return main(argv)
+    except SystemExit:
+        raise
+    except BaseException as e:  # noqa
+        import traceback
+        tb = traceback.format_exc()
+        sys.stderr.write(tb)
+        os.makedirs(os.path.join(VERIF, "replays"), exist_ok=True)
+        h = hashlib.sha1(tb.encode()).hexdigest()[:10]
+        path = os.path.join(VERIF, "replays", "%s_crash_%s.json" % (pid, h))
+        with open(path, "w") as fh:
+            json.dump({"property": pid, "key": "harness-exception", "found_failing_input": False,
+                       "what": "the check could not complete against the current source: %s: %s" % (type(e).__name__, str(e)[:300]),
+                       "replay": {"correspondence": "harness execution (tracer / interception / model evaluation) of %s" % pid, "traceback": tb[-3000:]},
+                       "how": "bin/check %s" % pid}, fh, indent=1)
+        print("VIOLATION property=%s replay=%s no-failing-input-found" % (pid, path))
+        print("  the check could not complete against the current source: %s: %s" % (type(e).__name__, str(e)[:300]))
+        return 1
